@@ -1,5 +1,6 @@
 import GcmpyModel.Driver.Util
 import GcmpyModel.Driver.C20
+import GcmpyModel.Driver.Gen
 /-! Line protocol: one JSON request per line on stdin, one JSON reply per line on stdout.
     The driver only *executes* the model's definitions; it is outside the proofs. -/
 open Lean Gcmpy.Driver
@@ -8,6 +9,7 @@ def dispatch (j : Json) : R Json := do
   let op ← fieldAs String j "op"
   match op with
   | "c20" => C20.handle j
+  | "gen" => Gen.handle j
   | "ping" => pure (obj [("pong", Json.bool true)])
   | _ => throw s!"unknown op {op}"
 
